@@ -52,6 +52,7 @@ func VerifTraceStop() []VerifEvent {
 // VerifTraceAppend logs one event (used by the hooks of the other packages and by harness code
 // standing in for the consumer / aggregator / renderer).
 func VerifTraceAppend(ev string, s string, a, b uint64) {
+	verifProbeCall(ev, s) // see verif_probe.go; does nothing unless the harness installed a probe
 	if atomic.LoadInt32(&verifLog.on) == 0 {
 		return
 	}
